@@ -23,9 +23,10 @@ def run_one(patch, slot):
     d = tempfile.mkdtemp(prefix="b-", dir=base)
     name = os.path.basename(patch)
     try:
-        for f in ("Cargo.toml", "Cargo.lock"):
-            shutil.copy(os.path.join(REPO, f), d)
-        shutil.copytree(os.path.join(REPO, "src"), os.path.join(d, "src"))
+        # the committed tree of /repo (HEAD), so that this can run while tools/seeded_eval.py has a seeded change applied to the working tree
+        ar = subprocess.run("git -C %s archive HEAD Cargo.toml Cargo.lock src | tar -x -C %s" % (REPO, d), shell=True)
+        if ar.returncode != 0:
+            return name, "broken-build", "git archive failed"
         a = subprocess.run(["patch", "-p1", "-s", "-d", d, "-i", os.path.abspath(patch)], stdout=subprocess.PIPE, stderr=subprocess.STDOUT, text=True)
         if a.returncode != 0:
             return name, "does-not-apply", a.stdout.strip()[:300]
